@@ -394,6 +394,80 @@ def mp_model_inputs(rng, n, tier):
     return out
 
 
+def ubj_model_inputs(rng, n, tier):
+    """inputs for the ubjson_parser model beyond the reference's fragment: high-precision numbers, no-op markers in every position, typed
+    containers of every element type (also of containers), counts on both sides of max_items, nesting around the depth option, bad keys,
+    negative / non-integer lengths, prefixes of everything"""
+    out = []
+    i8 = lambda k: b"i" + bytes([k % 256])
+    ln = lambda k: rng.choice([i8(k), b"U" + bytes([k]), b"I" + k.to_bytes(2, "big"), b"l" + k.to_bytes(4, "big"), b"L" + k.to_bytes(8, "big")]) if k < 128 else \
+        rng.choice([b"I" + k.to_bytes(2, "big"), b"l" + k.to_bytes(4, "big"), b"L" + k.to_bytes(8, "big")])
+    payload = {ord("Z"): lambda: b"", ord("N"): lambda: b"", ord("T"): lambda: b"", ord("F"): lambda: b"",
+               ord("i"): lambda: bytes([rng.randrange(256)]), ord("U"): lambda: bytes([rng.randrange(256)]),
+               ord("I"): lambda: bytes(rng.randrange(256) for _ in range(2)), ord("l"): lambda: bytes(rng.randrange(256) for _ in range(4)),
+               ord("L"): lambda: bytes(rng.randrange(256) for _ in range(8)), ord("d"): lambda: bytes(rng.randrange(256) for _ in range(4)),
+               ord("D"): lambda: bytes(rng.randrange(256) for _ in range(8)), ord("C"): lambda: bytes([rng.choice([0x61, 0x00, 0x7f, 0x80, 0xff, rng.randrange(256)])]),
+               ord("S"): lambda: rng.choice([ln(0), ln(1) + b"a", ln(2) + b"\xc3\xa9", ln(2) + b"\xc3\x28", ln(3) + b"\xed\xa0\x80", ln(4) + b"\xf0\x9f\x98\x80"]),
+               ord("H"): lambda: rng.choice([ln(0), ln(1) + b"7", ln(2) + b"-1", ln(1) + b"-", ln(3) + b"1.5", ln(3) + b"1e5", ln(2) + b"\xff\xfe", ln(20) + b"12345678901234567890", ln(3) + b"+12", ln(2) + b"1-"]),
+               ord("["): lambda: rng.choice([b"]", b"#" + ln(0), b"#" + ln(1) + b"Z", b"$U#" + ln(2) + b"\x01\x02", b"i\x05]", b"N]", b"$N#" + ln(3)]),
+               ord("{"): lambda: rng.choice([b"}", b"#" + ln(0), b"#" + ln(1) + ln(1) + b"kT", b"$i#" + ln(1) + ln(1) + b"a\x07", ln(1) + b"bF}", b"N}"])}
+    marks = sorted(payload)
+    item = lambda: (lambda m: bytes([m]) + payload[m]())(rng.choice(marks))
+    key = lambda: rng.choice([ln(0), ln(1) + b"a", ln(1) + b"b", ln(2) + b"\xc3\xa9", ln(1) + b"\xff", b"N", b"S" + ln(1) + b"a", b"i\xff", b"Z"])
+    for _ in range(n):
+        r = rng.random()
+        k = rng.randint(0, 4)
+        if r < 0.15:
+            b = item()
+        elif r < 0.3:
+            ty = rng.choice(marks + [0x58, 0x5d, 0x23, 0x24])
+            b = b"[$" + bytes([ty]) + b"#" + ln(k) + b"".join(payload.get(ty, lambda: b"")() for _ in range(k))
+        elif r < 0.45:
+            ty = rng.choice(marks + [0x58, 0x7d])
+            b = b"{$" + bytes([ty]) + b"#" + ln(k) + b"".join(key() + payload.get(ty, lambda: b"")() for _ in range(k))
+        elif r < 0.6:
+            b = b"[#" + ln(k) + b"".join(item() for _ in range(k))
+        elif r < 0.7:
+            b = b"{#" + ln(k) + b"".join(key() + item() for _ in range(k))
+        elif r < 0.85:
+            b = b"[" + b"".join(item() for _ in range(k)) + b"]"
+        else:
+            b = b"{" + b"".join(key() + item() for _ in range(k)) + b"}"
+        o = rng.choice(["m4096", "m4096", "m4096", "m4096d%d" % rng.randint(0, 3), "m%d" % rng.randint(0, 3), "d%dm%d" % (rng.randint(1, 3), rng.randint(1, 4))])
+        out.append((o, b))
+        r = rng.random()
+        if r < 0.3:
+            out.append((o, b[:rng.randrange(len(b) + 1)]))
+        elif r < 0.5:
+            out.append((o, binfmt.mutate_bytes(rng, b, (0x24, 0x23, 0x4e, 0x5b, 0x5d, 0x7b, 0x7d, 0x48, 0x53, 0x43, 0x69, 0x55, 0x49, 0x6c, 0x4c, 0xff, 0x80, 0x00))))
+    for d in range(0, 6):
+        for lim in ("m4096", "m4096d0", "m4096d1", "m4096d2", "m4096d5", "m0", "m1", "m2"):
+            out.append((lim, b"[" * d + b"Z" + b"]" * d))
+            out.append((lim, b"[#i\x01" * d + b"T"))
+            out.append((lim, b"[$[#i\x01" * d + b"]"))
+            out.append((lim, b"{i\x01a" * d + b"F" + b"}" * d))
+            out.append((lim, b"{$[#i\x01i\x01k" * d + b"]"))
+            out.append((lim, b"[" * d))
+    for cnt in (0, 1, 2, 3, 4095, 4096, 4097, 65535):
+        for lim in ("m4096", "m2", "m4095"):
+            out.append((lim, b"[$Z#l" + cnt.to_bytes(4, "big")))
+            out.append((lim, b"[$N#I" + (cnt % 32768).to_bytes(2, "big")))
+            out.append((lim, b"[#L" + cnt.to_bytes(8, "big") + b"T" * min(cnt, 5000)))
+            out.append((lim, b"{$T#l" + cnt.to_bytes(4, "big") + b"i\x01a" * min(cnt, 5000)))
+            out.append((lim, b"[" + b"N" * min(cnt, 5000) + b"]"))
+            out.append((lim, b"[" + b"F" * min(cnt, 5000) + b"]"))
+            out.append((lim, b"{" + b"i\x01aZ" * min(cnt, 5000) + b"}"))
+    for s in (b"N", b"[N]", b"[#i\x02NN", b"{i\x01aN}", b"{#i\x01i\x01aN", b"{$N#i\x01i\x01a", b"[$N#i\x03", b"[$", b"[$i", b"[$iX", b"[$i#", b"[$i#S", b"[$i#i\xff", b"[#I\x80\x00",
+              b"[#l\x80\x00\x00\x00", b"[#L\x80" + b"\x00" * 7, b"[#L\x7f" + b"\xff" * 7, b"SL\x7f" + b"\xff" * 7 + b"a", b"HU\x03123", b"HU\x02-5", b"HU\x011", b"HU\x00", b"Hi\x031.5",
+              b"HU\x02\xc3\x28", b"C\x80", b"Ca", b"C", b"{N}", b"{Z", b"{i\xff", b"{i\x01", b"{i\x01\xff", b"{U\x01aC", b"{$", b"{$i", b"{$i#", b"{$iX", b"{#", b"X", b"[X]", b"[$X#i\x00", b"[$X#i\x01",
+              b"{$X#i\x00", b"[$]#i\x01", b"[$##i\x01", b"[$$#i\x01", b"[$S#i\x02i\x01ai\x01b", b"[$H#i\x02i\x011i\x03-.5", b"{$S#i\x01i\x01ki\x01v", b"{${#i\x01i\x01k}",
+              b"{${#i\x01i\x01k$Z#i\x01i\x01z", b"[$C#i\x02a\xff", b"[$d#i\x01\x7f\xc0\x00\x00", b"[$D#i\x01" + b"\x7f\xf8" + b"\x00" * 6, b"[i\x01", b"[#i\x05i\x01"):
+        for lim in ("m4096", "m4096d1", "m1"):
+            out.append((lim, s))
+        out += [("m4096", s[:i]) for i in range(len(s))]
+    return out
+
+
 def model_line(line):
     t = line.split()
     return "bin mdec %s %s %s" % (t[2], t[4], t[5])
@@ -510,6 +584,14 @@ def streams(ctx, rng, scale):
     stats2 = {"skip": 0, "tied": 0, "errors": 0}
     st2 = ctx.correspond("msgpack-decoder-model", HARNESS, lp, None, nontrivial, compare=model_tie(stats2), model_lines=[model_line(l) for l in lp])
     st2.update({"model_answered": stats2["tied"], "model_answered_error": stats2["errors"], "outside_fragment": stats2["skip"]})
+    # the ubjson_parser MODEL (JV.Model.UbjsonParser: read_value / get_length / read_key / begin_array / begin_object with $type and #count /
+    # the nine container parse modes / max_items / max_nesting_depth) against the real decoder, on the UBJSON inputs judged above and on
+    # inputs of its own (a separate PRNG stream)
+    rng3 = vlib.rng_for(ctx.seed * 7919 + scale, "c07-ubjson-model")
+    lu = kept["ubjson"] + ["bin dec ubjson %s %s x%s" % ("j" if rng3.random() < 0.7 else "o", o, b.hex()) for o, b in ubj_model_inputs(rng3, 1000 * scale, ctx.tier)]
+    stats3 = {"skip": 0, "tied": 0, "errors": 0}
+    st3 = ctx.correspond("ubjson-decoder-model", HARNESS, lu, None, nontrivial, compare=model_tie(stats3), model_lines=[model_line(l) for l in lu])
+    st3.update({"model_answered": stats3["tied"], "model_answered_error": stats3["errors"], "outside_fragment": stats3["skip"]})
 
 
 def run(ctx):
